@@ -4,6 +4,9 @@ import RoaringModel.Lemmas.DecodeWF
 import RoaringModel.Lemmas.CodecKernel
 import RoaringModel.Lemmas.DecodeSpec
 import RoaringModel.Lemmas.Canonical
+import RoaringModel.Lemmas.TreemapCodec
+import RoaringModel.Lemmas.TreemapEncodeSpec
+import RoaringModel.Lemmas.TreemapCodecWF
 /-!
 # C06 — every conformant Roaring stream decodes to exactly its set (32-bit half)
 
@@ -68,5 +71,85 @@ example : (deserialize true true [59, 48, 0, 0, 1, 3, 0, 3, 0, 2, 0, 2, 0, 2, 0,
     `65536` and accepts; no `u16` key can hold it (not a statement about the crate: a `Vec<u8>` has no such
     entry) -/
 example : Spec.decode [58, 48, 0, 0, 1, 0, 0, 0, 0, 256, 0, 0, 16, 0, 0, 0, 5, 0] = some ([4294967301], []) := by rfl
+
+end Roaring.C06
+
+/-!
+# C06, 64-bit half — the portable format of `RoaringTreemap`
+
+Full statement (`C06_t_statement`, proved: `C06_t`): whenever the strict reference decoder `Spec.decode64`
+(`SpecCodec64.lean`: `u64` count, strictly ascending `u32` keys, conformant inner streams, an empty bucket
+allowed) accepts a byte string with set `S`, both treemap decoders, in both build configurations, return a
+well-formed value (`Treemap.WFd Bitmap.WF` = `Treemap.TWF`) with `elems = S` and the same unread rest.  The
+32-bit theorem `C06` is lifted through the bucket loop (`Treemap.decodeBuckets_spec`,
+`Lemmas/TreemapCodecWF.lean`): inner run chunks, offset-less inner headers and empty buckets are all covered.
+-/
+namespace Roaring.C06
+open Roaring
+
+/-- (the input is a byte string: on lists with entries `≥ 256` a "`u32`" key read from four entries could exceed
+    `2^32`, which no `&[u8]` can express) -/
+def C06_t_statement : Prop :=
+  ∀ (chk dbg : Bool) (bs S rest : List Nat), (∀ x ∈ bs, x < 256) → Spec.decode64 bs = some (S, rest) →
+    ∃ t, Treemap.deserialize chk dbg bs = .ok (t, rest) ∧ Treemap.WFd Bitmap.WF t ∧ Treemap.elems t = S
+
+/-- **C06, 64-bit.**  Every stream accepted by the strict reference decoder of the portable format is decoded —
+    by `deserialize_from` and by `deserialize_unchecked_from`, with and without debug assertions — to a
+    well-formed treemap holding exactly the set the format assigns to the stream, leaving the same unread rest.
+    No hypothesis beyond the input being a byte string. -/
+theorem C06_t : C06_t_statement := fun chk dbg bs S rest hb h => Treemap.decode64_spec chk dbg bs S rest hb h
+
+/-- the set of an accepted stream is a strictly ascending list of `u64`s (because it is the element list of a
+    well-formed treemap) -/
+theorem C06_t_sorted (bs S rest : List Nat) (hb : ∀ x ∈ bs, x < 256) (h : Spec.decode64 bs = some (S, rest)) :
+    S.Pairwise (· < ·) ∧ ∀ x ∈ S, x < 18446744073709551616 := by
+  obtain ⟨t, _, hwf, hel⟩ := C06_t true false bs S rest hb h
+  rw [← hel]
+  exact ⟨Treemap.sorted_elems Treemap.elems32 hwf, Treemap.elems_lt Treemap.elems32 hwf⟩
+
+/-- the accepted value is *the* representation of `S`: any well-formed treemap with the same elements (for
+    example the natively built one) is structurally equal to it, hence `==` -/
+theorem C06_t_unique (chk dbg : Bool) (bs S rest : List Nat) (hb : ∀ x ∈ bs, x < 256)
+    (h : Spec.decode64 bs = some (S, rest)) (t' : Treemap) (hw : Treemap.WFd Bitmap.WF t')
+    (he : Treemap.elems t' = S) : Treemap.deserialize chk dbg bs = .ok (t', rest) := by
+  obtain ⟨t, hd, hwf, hel⟩ := C06_t chk dbg bs S rest hb h
+  rw [hd, Treemap.canonical t t' hwf hw (by rw [hel, he])]
+
+/-- all four decoder configurations agree on conformant streams -/
+theorem C06_t_agree (chk dbg chk' dbg' : Bool) (bs S rest : List Nat) (hb : ∀ x ∈ bs, x < 256)
+    (h : Spec.decode64 bs = some (S, rest)) :
+    Treemap.deserialize chk dbg bs = Treemap.deserialize chk' dbg' bs := by
+  obtain ⟨t, hd, hwf, hel⟩ := C06_t chk dbg bs S rest hb h
+  rw [hd, C06_t_unique chk' dbg' bs S rest hb h t hwf hel]
+
+/-- The treemap decoders invert the reference encoder of the portable format: the standard encoding of the
+    elements of any well-formed treemap, followed by anything, decodes to exactly that value (`==` the natively
+    built one), leaving what followed.  Unconditional. -/
+theorem C06_t_standard (chk dbg : Bool) (t : Treemap) (h : Treemap.WFd Bitmap.WF t) (rest : List Nat) :
+    Treemap.deserialize chk dbg (Spec.encode64 (Treemap.elems t) ++ rest) = .ok (t, rest) := by
+  rw [← Treemap.serialize_eq_encode64_wf t h]
+  exact Treemap.deserialize_serialize_wf chk dbg t h rest
+
+/-- Whatever the checked treemap decoder returns is well-formed: ascending keys, no empty partition, every
+    partition a well-formed 32-bit value (see C13).  Unconditional. -/
+theorem C06_t_checked_wf (dbg : Bool) (bs rest : List Nat) (t : Treemap)
+    (hb : ∀ x ∈ bs, x < 256) (h : Treemap.deserialize true dbg bs = .ok (t, rest)) : Treemap.WFd Bitmap.WF t :=
+  (Treemap.post_deserialize_wf dbg bs t rest hb h).1
+
+/-- concrete instance (no hypothesis), by evaluation: three buckets — key 1 with a run-cookie stream without
+    offset header (run chunk `[(2,2),(9,0)]` under chunk key 3), key 2 with the empty set, key `u32::MAX` with an
+    array chunk — accepted by the strict reference decoder with set `S`, decode to a value with `elems = S`
+    and two partitions. -/
+example : Spec.decode64 [3, 0, 0, 0, 0, 0, 0, 0,
+      1, 0, 0, 0, 59, 48, 0, 0, 1, 3, 0, 3, 0, 2, 0, 2, 0, 2, 0, 9, 0, 0, 0,
+      2, 0, 0, 0, 58, 48, 0, 0, 0, 0, 0, 0,
+      255, 255, 255, 255, 58, 48, 0, 0, 1, 0, 0, 0, 0, 0, 0, 0, 16, 0, 0, 0, 7, 0] =
+    some ([4295163906, 4295163907, 4295163908, 4295163913, 18446744069414584327], []) := by rfl
+example : (Treemap.deserialize true true [3, 0, 0, 0, 0, 0, 0, 0,
+      1, 0, 0, 0, 59, 48, 0, 0, 1, 3, 0, 3, 0, 2, 0, 2, 0, 2, 0, 9, 0, 0, 0,
+      2, 0, 0, 0, 58, 48, 0, 0, 0, 0, 0, 0,
+      255, 255, 255, 255, 58, 48, 0, 0, 1, 0, 0, 0, 0, 0, 0, 0, 16, 0, 0, 0, 7, 0]).map
+    (fun r => (Treemap.elems r.1, r.1.length, r.2)) =
+    .ok ([4295163906, 4295163907, 4295163908, 4295163913, 18446744069414584327], 2, []) := by rfl
 
 end Roaring.C06
